@@ -1,9 +1,11 @@
 import Gomjml.Core.Tag
+import Gomjml.Core.InlineTagProofs
 import Gomjml.Gen.ClassSites
 /-! # C19 — inline CSS is applied completely and touches nothing but style attributes (property theorems only)
 
-Component side, on the byte-exact `HTMLTag` model.  The scanner over author HTML (`applyInlineStylesToHTML`) is judged on
-the real bytes by the Lean lexer (harness), see the evidence. -/
+Component side, on the byte-exact `HTMLTag` model.  Author-HTML side, on the byte-exact model of the scanner's per-tag step
+(`InlineTag`: `parseTag` and the write-back of `inlineStylesInTag`), tied to the implementation by running both on the same start
+tags; the fragment loop around it (text, comments, end tags copied through) is judged on the real bytes by the Lean lexer. -/
 namespace Gomjml.Props.C19
 open Gomjml.Tag
 
@@ -35,5 +37,53 @@ def derivedClassOnly : List String :=
 
 theorem C19_class_sites :
     ∀ r ∈ Gomjml.Gen.ClassSites.classSites, r.2 = "yes" ∨ r.1 ∈ derivedClassOnly := by decide
+
+/-! ### author HTML: the per-tag step of the scanner -/
+open Gomjml.InlineTag in
+/-- **the parse of a start tag loses nothing**: `<`, white space, the name, the attributes as written (each with the white space in
+    front of it), what stands at the stopping point, and the bytes the loop did not look at are the tag, byte for byte -/
+theorem C19_tag_parse_lossless (tag : List Gomjml.Amp.B) (p : Parsed) (h : parse tag = some p) :
+    (∀ a ∈ p.attrs, a.raw ≠ []) ∧
+    ∃ lead mid, allSp lead ∧ midOk p.ending mid ∧
+      tag = [Gomjml.Amp.lt] ++ lead ++ p.name ++ piecesOf p.attrs ++ mid ++ p.rest := parse_pieces tag p h
+
+open Gomjml.InlineTag in
+/-- **touches nothing but the style attribute (a style attribute is added)**: for EVERY start tag the scanner parses, with a class
+    the rules target and no style attribute, the output is `<`, the name and every attribute exactly as written, then
+    ` style="<declarations>"`, then the closing -/
+theorem C19_tag_append (inl : List Gomjml.Amp.B → List Gomjml.Amp.B) (tag : List Gomjml.Amp.B) (p : Parsed) (hp : parse tag = some p)
+    (hne : p.attrs ≠ []) (ci : Nat) (hci : lastIdx classN p.attrs = some ci)
+    (hd : inl (p.attrs[ci]?.map (·.value) |>.getD []) ≠ []) (hs : lastIdx styleN p.attrs = none) :
+    inlineTag inl tag = [Gomjml.Amp.lt] ++ p.name ++ piecesOf p.attrs ++
+      ([32] ++ styleN ++ [eqs] ++ [Gomjml.Amp.dq] ++ inl (p.attrs[ci]?.map (·.value) |>.getD []) ++ [Gomjml.Amp.dq]) ++ closing tag p ++ [Gomjml.Amp.gt] :=
+  inlineTag_append inl tag p hp hne ci hci hd hs
+
+open Gomjml.InlineTag in
+/-- **touches nothing but the style attribute (the style attribute is extended)**: every attribute in front of and behind the
+    (last) style attribute is written back exactly as it was written; the style attribute keeps the white space in front of it,
+    its name and its quote and gets the merged value -/
+theorem C19_tag_merge (inl : List Gomjml.Amp.B → List Gomjml.Amp.B) (tag : List Gomjml.Amp.B) (p : Parsed) (hp : parse tag = some p)
+    (hne : p.attrs ≠ []) (ci : Nat) (hci : lastIdx classN p.attrs = some ci)
+    (hd : inl (p.attrs[ci]?.map (·.value) |>.getD []) ≠ []) (si : Nat) (hs : lastIdx styleN p.attrs = some si)
+    (a : Attr) (ha : p.attrs[si]? = some a) :
+    inlineTag inl tag = [Gomjml.Amp.lt] ++ p.name ++ piecesOf (p.attrs.take si) ++
+      (a.pre ++ styleText a (mergeStyle a.value (inl (p.attrs[ci]?.map (·.value) |>.getD [])))) ++
+      piecesOf (p.attrs.drop (si + 1)) ++ closing tag p ++ [Gomjml.Amp.gt] :=
+  inlineTag_merge inl tag p hp hne ci hci hd si hs a ha
+
+open Gomjml.InlineTag in
+/-- non-vacuity: `<a href=http://x/a class=ka>` (bytes) parses cleanly (every byte looked at), has a targeted class and no style
+    attribute, and comes out as `<a href=http://x/a class=ka style="color:red;">` -/
+example :
+    let tag : List Gomjml.Amp.B := [60, 97, 32, 104, 114, 101, 102, 61, 104, 116, 116, 112, 58, 47, 47, 120, 47, 97, 32, 99, 108, 97, 115, 115, 61, 107, 97, 62]
+    let inl : List Gomjml.Amp.B → List Gomjml.Amp.B := fun c => if c == [107, 97] then [99, 111, 108, 111, 114, 58, 114, 101, 100, 59] else []
+    (parse tag).map Parsed.clean = some true ∧ inlineTag inl tag = [60, 97, 32, 104, 114, 101, 102, 61, 104, 116, 116, 112, 58, 47, 47, 120, 47, 97, 32, 99, 108, 97, 115, 115, 61, 107, 97, 32, 115, 116, 121, 108, 101, 61, 34, 99, 111, 108, 111, 114, 58, 114, 101, 100, 59, 34, 62] := by decide
+
+open Gomjml.InlineTag in
+/-- … and `<p style='a:b' class="ka" id=x/>` keeps `id=x`, the quotes and the self-closing mark: `<p style='a:b;color:red;' class="ka" id=x/>` -/
+example :
+    let tag : List Gomjml.Amp.B := [60, 112, 32, 115, 116, 121, 108, 101, 61, 39, 97, 58, 98, 39, 32, 99, 108, 97, 115, 115, 61, 34, 107, 97, 34, 32, 105, 100, 61, 120, 47, 62]
+    let inl : List Gomjml.Amp.B → List Gomjml.Amp.B := fun c => if c == [107, 97] then [99, 111, 108, 111, 114, 58, 114, 101, 100, 59] else []
+    (parse tag).map Parsed.clean = some true ∧ inlineTag inl tag = [60, 112, 32, 115, 116, 121, 108, 101, 61, 39, 97, 58, 98, 59, 99, 111, 108, 111, 114, 58, 114, 101, 100, 59, 39, 32, 99, 108, 97, 115, 115, 61, 34, 107, 97, 34, 32, 105, 100, 61, 120, 47, 62] := by decide
 
 end Gomjml.Props.C19
